@@ -183,11 +183,15 @@ where
         loop {
             let wait_read = async {
                 let mut buffer = self.state.take_buffer();
-                if buffer.is_empty() {
+                // a buffered partial request head needs more input before it can be parsed again
+                if buffer.is_empty() || matches!(self.state, State::WaitingRequest(_)) {
                     if matches!(self.state, State::RequestInProgress(_)) {
                         let _ = self.upload_tx.reserve().await;
                     }
-                    self.transport_stream.read_buf(&mut buffer).await?;
+                    if self.transport_stream.read_buf(&mut buffer).await? == 0 {
+                        // end of stream (an incomplete head, if any, is discarded)
+                        buffer.clear();
+                    }
                 }
                 Ok(buffer)
             };
